@@ -396,7 +396,8 @@ class DocstringParser(AbstractDocstringParser):
                 griffe_node = griffe_node.functions[part]
             elif part in griffe_node.attributes:
                 griffe_node = griffe_node.attributes[part]
-            elif part == "__init__" and griffe_node.is_class:
+            elif griffe_node.is_class:
+                # A member without source text, e.g. "__init__" or the comparison methods a dataclass generates
                 return None
             else:  # pragma: no cover
                 raise ValueError(
